@@ -8,7 +8,8 @@
    call's input history, the tool executions grouped by round (in call order), the messages
    handed out by react.WithMessageFuture (if used), and the final answer or error class
    (1 = step limit, 2 = model failure, 3 = anything else: tools node, concatenation, ...). *)
-From Eino Require Import Base.Util Model.Tools Model.React.
+From Eino Require Import Base.Util Model.Graph Model.Tools Model.React Model.ReactGraph.
+Local Open Scope nat_scope.
 Local Open Scope string_scope.
 
 Inductive omsg : Type := OM (role : N) (content : string) (calls : list call) (tcid : string).
@@ -116,14 +117,35 @@ Definition case_trace (c : ccase) (md : omode) (callopts : bool) : trace :=
             (call_max_steps (k_max_step c) (if callopts then k_runtime_max c else 0%nat) rdn)
             (k_script c) (map msg_of (k_input c)).
 
+(* the same run by the shared engine model on the ReAct graph (Model/ReactGraph.v); a call-time
+   WithRuntimeMaxSteps replaces the compiled limit, which for the engine model is the graph's g_max *)
+Definition case_engine_trace (c : ccase) (md : omode) (callopts : bool) : option trace :=
+  let rdn := nonempty (k_rd c) in
+  engine_trace (case_tn c) (fun n => mem_str n (k_rd c)) rdn
+            (case_modifier c)
+            (fun cl => match kind_lookup (k_tdefs c) (c_name cl) with Some _ => true | None => false end)
+            (if k_default_checker c then default_checker else exact_checker)
+            (match md with MGenerate => Generate | MStream => Stream end)
+            (match (if callopts then k_runtime_max c else 0) with 0 => k_max_step c | r => r end)
+            (k_script c) (map msg_of (k_input c)).
+
+Definition trace_ok (c : ccase) (t : trace) (inputs : list (list omsg)) (rounds : list (list call))
+           (emits : option (list omsg)) (out : oout) : bool :=
+  list_eqb (list_eqb msg_eqb) (t_inputs t) inputs
+  && list_eqb (list_eqb call_eqb) (filter nonempty (map (case_executed c) (t_rounds t))) rounds
+  && match emits with Some es => list_eqb msg_eqb (t_emits t) es | None => true end
+  && out_eqb (t_out t) out.
+
+(* both models — the dedicated superstep loop the theorems unfold, and the engine instance —
+   must reproduce what the implementation did *)
 Definition run_ok (c : ccase) (r : orun) : bool :=
   match r with
   | ORun md callopts inputs rounds emits out =>
-      let t := case_trace c md callopts in
-      list_eqb (list_eqb msg_eqb) (t_inputs t) inputs
-      && list_eqb (list_eqb call_eqb) (filter nonempty (map (case_executed c) (t_rounds t))) rounds
-      && match emits with Some es => list_eqb msg_eqb (t_emits t) es | None => true end
-      && out_eqb (t_out t) out
+      trace_ok c (case_trace c md callopts) inputs rounds emits out
+      && match case_engine_trace c md callopts with
+         | Some t => trace_ok c t inputs rounds emits out
+         | None => false
+         end
   end.
 
 Definition bad (c : ccase) : bool := negb (forallb (run_ok c) (k_runs c)).
